@@ -10,23 +10,29 @@ def commandVals : List String := ["true", "true", "true", "true", "true", "true"
 /-- the states the command loop dispatches to a handler(cmd, args), in source order -/
 def dispatchStates : List String := ["AUTHORIZATION", "TRANSACTION"]
 
-/-- case labels of the switch on the command word in the AUTHORIZATION handler (source order) and whether it has a default clause -/
-def authCases : Option (List (List Nat) × Bool) := some ([[81, 85, 73, 84], [83, 84, 76, 83], [85, 83, 69, 82], [80, 65, 83, 83], [65, 80, 79, 80]], true)
+/-- the command words the paths of the AUTHORIZATION handler compare the command equal to (sorted), and whether some path compares it equal to none (the default) -/
+def authCases : Option (List (List Nat) × Bool) := some ([[65, 80, 79, 80], [80, 65, 83, 83], [81, 85, 73, 84], [83, 84, 76, 83], [85, 83, 69, 82]], true)
 
-/-- case labels of the switch on the command word in the TRANSACTION handler (source order) and whether it has a default clause -/
-def transCases : Option (List (List Nat) × Bool) := some ([[83, 84, 65, 84], [76, 73, 83, 84], [85, 73, 68, 76], [68, 69, 76, 69], [82, 69, 84, 82], [84, 79, 80], [81, 85, 73, 84], [78, 79, 79, 80], [82, 83, 69, 84]], true)
+/-- the command words the paths of the TRANSACTION handler compare the command equal to (sorted), and whether some path compares it equal to none (the default) -/
+def transCases : Option (List (List Nat) × Bool) := some ([[68, 69, 76, 69], [76, 73, 83, 84], [78, 79, 79, 80], [81, 85, 73, 84], [82, 69, 84, 82], [82, 83, 69, 84], [83, 84, 65, 84], [84, 79, 80], [85, 73, 68, 76]], true)
 
-/-- `if` conditions on the command word ($cmd) inside the command loop's function, in source order -/
-def loopTests : List String := ["$cmd == \"CAPA\"", "$cmd == \"\"", "!commands[$cmd]"]
+/-- what every path through the command loop that reaches the state dispatch has decided about the command word ($cmd), in the order it was decided -/
+def loopTests : List String := ["$cmd != \"CAPA\"", "$cmd != \"\"", "commands[$cmd]"]
 
 /-- condition of the command loop ($s = the session) -/
 def loopCond : String := "$s.state != QUIT && $s.sendError == nil"
 
-/-- (state, clause, Store method) for every method of storage.Store a clause can reach through the package's own functions; ("", "loop" | "elsewhere", m) for calls outside the handlers' tables -/
-def storeReach : List (String × String × String) := [("AUTHORIZATION", "PASS", "GetMessages"), ("AUTHORIZATION", "APOP", "GetMessages"), ("TRANSACTION", "QUIT", "RemoveMessage")]
+/-- (state, command word, Store method) for every method of storage.Store called on a path of that row of a handler's table (the package's own functions executed in place); ("", "loop", m) for a call on a path of the command loop that does not go through the dispatch, ("", "elsewhere", m) for one in a function the loop cannot reach; sorted -/
+def storeReach : List (String × String × String) := [("AUTHORIZATION", "APOP", "GetMessages"), ("AUTHORIZATION", "PASS", "GetMessages"), ("TRANSACTION", "QUIT", "RemoveMessage")]
 
 /-- distinct (base,bitSize) of the strconv.ParseInt calls -/
 def parseIntArgs : List String := ["10,32"]
+
+/-- some non-test file of pkg/server/pop3 imports pkg/policy or mentions ExtractMailbox / MailboxForAddress -/
+def usesPolicy : Bool := false
+
+/-- the session field handed to Store.GetMessages (the mailbox key) is only ever assigned `A[0]`, inside the handler that has the USER clause (once in that clause), where A is that handler's never-written argument-list parameter; A is result 1 of the command parser at the one call of the handler, and the parser returns the words after the first blank of the line (after at most trimming CR / LF) unchanged: strings.Split(line, " ")[1:], or strings.Cut(line, " ") followed by strings.Split(rest, " ") -/
+def userVerbatim : Bool := true
 
 /-- what the accepting exit of the STLS clause does to the connection, in source order (see harness/cmd/extract/tls.go) -/
 def stlsSwitch : List String := ["wrap", "handshake", "conn", "reader", "state"]
